@@ -85,9 +85,23 @@ def run(ctx):
     for fname, args, ok_from, ends in (("ovni_proc_init", [INT(1), ("str", "node"), INT(7)], "ST_UNINIT", "ST_READY"),
                                        ("ovni_proc_fini", [], "ST_READY", "ST_GONE")):
         fn = prog.fn(fname, OV)
+        def strip_inlined(events):
+            """Drop the 'call' record of a helper that was interpreted in place (it is followed by its 'enter'):
+            what counts as an effect is what the helper does, not that it was called."""
+            out = []
+            for i_, ev in enumerate(events):
+                if ev[0] == "call" and i_ + 1 < len(events) and events[i_ + 1][0] == "enter" and events[i_ + 1][1] == ev[1]:
+                    continue
+                if ev[0] in ("enter", "leave"):
+                    continue
+                out.append(ev)
+            return tuple(out)
         for sname, sval in ST.items():
-            ex = absint.Explorer(prog, effects=eff, auto_inline=False)
+            # private static helpers are interpreted in place; the directory creation stays one opaque step
+            ex = absint.Explorer(prog, effects=eff, opaque={"create_proc_dir", "try_clean_dir"}, max_depth=3)
             outs = ex.run(fn, args, {(RP, F("ovni_rproc", "st")): INT(sval)})
+            for o in outs:
+                o.events = strip_inlined(o.events)
             live = [o for o in outs if o.kind in ("ret", "exit")]
             inst = "%s:from-%s" % (fname, sname)
             if sname == ok_from:
@@ -163,13 +177,37 @@ def run(ctx):
                                      "rproc.%s is handed to %s (which writes through its arguments) outside "
                                      "ovni_proc_init" % (an["field"], n["callee"]))
 
-    def guards_in(f):
+    est_memo = {}
+
+    def establishes(g, depth=0):
+        """A private static helper every normal return of which has passed a READY test (it dies otherwise):
+        calling it is as good as making the test in place."""
+        if g.key in est_memo:
+            return est_memo[g.key]
+        est_memo[g.key] = False
+        ok = False
+        if g.static and g.file == OV and depth < 3:
+            gs = guards_in(g, depth + 1)
+            # positions of normal function exit: return statements, or the last element of a void function
+            exits = [f_.where_up(r) if False else g.where_up(r) for r in g.returns()]
+            if not exits:
+                exits = [(b, len(g.elems(b))) for b in g.reachable_blocks() if not [x for x in g.blocks[b]["succs"] if x is not None]]
+            ok = bool(gs) and bool(exits) and all(any(g.dominates(gp, ep) for gp in gs) for ep in exits if ep is not None)
+        est_memo[g.key] = ok
+        return ok
+
+    def guards_in(f, depth=0):
         """CFG positions of READY tests: a read of rthread.ready or an atomic load / CAS on rproc.st
-        whose block ends in a branch with a dying arm."""
+        whose block ends in a branch with a dying arm, or a call of a private helper that makes the test."""
         out = []
         for b, idx, e in f.all_elems():
             n = f.nodes[e]
             is_guard = False
+            if n["k"] == "CallExpr" and n.get("callee"):
+                g_ = prog.resolve(f, n["callee"])
+                if g_ is not None and g_ is not f and establishes(g_, depth):
+                    out.append((b, idx))
+                    continue
             if n["k"] == "MemberExpr" and n.get("rec") == "ovni_rthread" and n["field"] == "ready":
                 is_guard = True
             if n["k"] == "AtomicExpr" and ("load" in n.get("op", "") or "compare_exchange" in n.get("op", "")):
